@@ -519,6 +519,47 @@ class SimOS:
             yield from self.walk(posixpath.join(top, d))
 
 
+class SimShutil:
+    """shutil over the simulated disk: what a change to the store layer may plausibly start to use (removing a directory
+    tree it created, moving a finished file into place).  A name it does not have is recorded as UNSUPPORTED."""
+
+    def __init__(self, fs):
+        self.fs = fs
+
+    def __getattr__(self, name):
+        UNSUPPORTED.append(f"shutil.{name}")
+        raise AttributeError(f"SimShutil lacks shutil.{name}")
+
+    def rmtree(self, path, ignore_errors=False, onerror=None, **kw):
+        o = self.fs.os
+        try:
+            if not o.path.isdir(path):
+                raise NotADirectoryError(errno.ENOTDIR, "Not a directory", path) if o.path.exists(path) else \
+                    FileNotFoundError(errno.ENOENT, "No such file or directory", path)
+            for top, dirs, files in list(o.walk(path))[::-1]:
+                for f in files:
+                    o.remove(posixpath.join(top, f))
+                o.rmdir(top)
+        except OSError:
+            if not ignore_errors:
+                raise
+
+    def move(self, src, dst, **kw):
+        if self.fs.os.path.isdir(dst):
+            dst = posixpath.join(dst, posixpath.basename(posixpath.normpath(src)))
+        self.fs.os.replace(src, dst)
+        return dst
+
+    def copyfile(self, src, dst, **kw):
+        with self.fs.open(src, "rb") as f:
+            data = f.read()
+        with self.fs.open(dst, "wb") as g:
+            g.write(data)
+        return dst
+
+    copy = copy2 = copyfile
+
+
 class SimFS:
     def __init__(self, world=None, root="/"):
         self.world = world
@@ -528,6 +569,7 @@ class SimFS:
         self.fds = {}
         self.next_fd = 100
         self.os = SimOS(self)
+        self.shutil = SimShutil(self)
         self.fault_hook = None     # fn(kind, path) -> may raise OSError
         self.short_write_hook = None   # fn(path, nbytes) -> number of bytes the "kernel" accepts (None: all)
         self.rawfds = {}           # fd -> SimRaw (descriptor-level API)
@@ -710,7 +752,11 @@ def crash_images(base_image, trace, upto):
                     blocked.discard(d)
                 else:
                     blocked.add(s)
-            elif k in ("rename-dir", "rmdir"):
+            elif k == "rmdir":
+                # journalled like mkdir (the directory was empty when it was removed: the unlinks precede it in the journal)
+                if i <= last_meta:
+                    dirs.discard(op[1])
+            elif k == "rename-dir":
                 UNSUPPORTED.append(f"crash model: {k}")
             elif k == "unlink":
                 if i <= last_meta:
